@@ -154,6 +154,11 @@ fn arbitrary_string(rng: &mut Rng) -> String {
 
 fn oracle_c(ctx: &mut Ctx, rng: &mut Rng) {
     let text = arbitrary_string(rng);
+    oracle_c_on(ctx, &text);
+}
+
+pub fn oracle_c_on(ctx: &mut Ctx, text: &str) {
+    let text = text.to_string();
     ctx.evaluations += 1;
     match from_string(&text) {
         Err(p) => ctx.violation("C13", format!("from_string|{}", p.class()), format!("arbitrary text {:?}: {}", &text.chars().take(120).collect::<String>(), p.msg), text.as_bytes()),
